@@ -620,7 +620,7 @@ pub fn err_program(r: &mut Rng) -> String {
     r.shuffle(&mut cs);
     let (c1, c2, c3, c4) = (cs[0], cs[1], cs[2], cs[3]);
     let n = r.range(2, 9);
-    match r.below(24) {
+    match r.below(30) {
         0 => format!("from {t} | select {{{c1}, {c2}, {c3}}} | derive {{{c4} = {c1}}} | filter zz_{n} > 1\n"),
         1 => format!("from a = {t} | join b = {u} (=={c1}) | join c = {t} (=={c1}) | select {{{c1}, {c2}}}\n"),
         2 => format!("from {t} | sort {c1} foo:{n} bar:2 baz:3\n"),
@@ -644,7 +644,15 @@ pub fn err_program(r: &mut Rng) -> String {
         20 => format!("module m1 {{ let x = 1 }}\nmodule m2 {{ let x = 2 }}\nmodule m1 {{ let y = 3 }}\nfrom {t} | derive {{p = m1.x, q = m2.z, r = m3.x}}\n"),
         21 => format!("from {t} | join {u} ({c1} == {c2} == {c3}) | select {{{t}.{c1}, {u}.{c2}, nope.{c3}}}\n"),
         22 => format!("from {t} | select {{{c1} = {c1}, {c1} = {c2}, {c1} = {c3}}} | sort {{{c1}, +{c2}, -{c9}}}\n", c9 = c4),
-        _ => format!("from {t} | aggregate {{a = sum {c1}, b = average {c2}}} | derive {{c = a + {c3}, d = b + {c4}}} | filter e > f\n"),
+        23 => format!("from {t} | aggregate {{a = sum {c1}, b = average {c2}}} | derive {{c = a + {c3}, d = b + {c4}}} | filter e > f\n"),
+        // several named arguments that each fail while the call is expanded
+        24 => format!("from {t}\nwindow rows:(=={n}) range:(=={t}.{c1}) expanding:(==1) (derive x = 1)\n"),
+        25 => format!("let f = a:1 b:2 c:3 x -> x\nfrom {t}\nderive y = (f a:(=={n}) b:(=={t}.{c1}) c:(==2) {c2})\n"),
+        26 => format!("from {t}\njoin side:(==1) foo:(=={u}.{c1}) {u} (=={c2})\n"),
+        // a table / a module where a type is expected: the message prints the declaration
+        27 => format!("let tt = (from {t} | select !{{{c1}, {c2}, {c3}}})\nlet v <tt> = {n}\nfrom {t}\n"),
+        28 => format!("module m {{\n  let f = x -> (window rows:1..2 expanding:false range:1..3 x)\n  let b = (from {t} | select !{{{c1}, {c2}, {c3}, {c4}}})\n}}\ntype y = m\nfrom {t}\n"),
+        _ => format!("let tt = (from {t} | select !{{{c1}, {c2}}} | join {u} (=={c3}))\nlet f = func p <tt> -> p\nfrom {t}\nderive q = (f {n})\n"),
     }
 }
 
